@@ -39,10 +39,6 @@ func (k *chk) num(check string, got, want int) {
 // knownSets: defects recorded under one narrow key = the exact set of failed checks of a path.
 // Any other set of failed checks on that path is reported check by check (new violation).
 var knownSets = map[string]string{
-	"rs|icmp-type,ip6-dst,mcast6-mac":             "rs-without-icmp6-header-to-ff02-1",
-	"rs|icmp-type":                                "rs-without-icmp6-header",
-	"ra|icmp-type,icmp6-checksum":                 "ra-without-icmp6-header",
-	"ra|icmp-type":                                "ra-without-icmp6-header",
 	"mdnsq|dst4-mac":                              "ip4-multicast-sent-to-ethernet-broadcast",
 	"llmnrq|dst4-mac,ip4-dst":                     "llmnr-query-to-224.0.0.251-ethernet-broadcast",
 	"ssdp|dst4-mac,ssdp-request-line":             "ssdp-msearch-lf-line-ends-ethernet-broadcast",
@@ -63,9 +59,6 @@ func (k *chk) flush(f []byte) {
 	}
 	sort.Strings(names)
 	key := knownSets[k.path+"|"+strings.Join(names, ",")]
-	if k.path == "arp-request" && k.only("eth-dst", "arp-hlen", "arp-plen") && f[4] == 6 && f[5] == 4 {
-		key = "arpreq-hlen-plen-in-ether-header" // (junk or the requested address may happen to hold 6 / 4)
-	}
 	if key != "" {
 		k.r.Viol(key, k.path+": "+k.describe(), k.replay)
 		return
